@@ -84,6 +84,19 @@ def _prune(prefix, keep):
         shutil.rmtree(os.path.join(BUILD_ROOT, d), ignore_errors=True)
 
 
+def _take_slot(nslots=2):
+    """at most `nslots` library builds run at a time on this machine (each uses 16 compilers)"""
+    while True:
+        for i in range(nslots):
+            f = open(os.path.join(BUILD_ROOT, "lock-build-slot-%d" % i), "w")
+            try:
+                fcntl.flock(f, fcntl.LOCK_EX | fcntl.LOCK_NB)
+                return f
+            except OSError:
+                f.close()
+        time.sleep(2)
+
+
 def ensure_lib(flavour, repo, jobs=16, log=sys.stderr):
     """returns (libdir, key); libdir contains libTMCG.a and inc/ (headers)"""
     fl = FLAVOURS[flavour]
@@ -91,12 +104,20 @@ def ensure_lib(flavour, repo, jobs=16, log=sys.stderr):
     key = _sha(ccs + hhs + [cfg], extra=flavour + " ".join(fl["flags"]) + fl["cxx"])
     os.makedirs(BUILD_ROOT, exist_ok=True)
     out = os.path.join(BUILD_ROOT, "lib-%s-%s" % (flavour, key))
-    lock = open(os.path.join(BUILD_ROOT, "lock-lib-%s" % flavour), "w")
+    # fast path without any lock: the directory is renamed into place atomically
+    if os.path.exists(os.path.join(out, "libTMCG.a")):
+        try:
+            os.utime(out, None)
+        except OSError:
+            pass
+        return out, key
+    lock = open(os.path.join(BUILD_ROOT, "lock-lib-%s-%s" % (flavour, key)), "w")
     fcntl.flock(lock, fcntl.LOCK_EX)
     try:
         if os.path.exists(os.path.join(out, "libTMCG.a")):
             os.utime(out, None)
             return out, key
+        slot = _take_slot()
         t0 = time.time()
         print("[build] libTMCG (%s) from %s -> %s" % (flavour, repo, out), file=log)
         tmp = out + ".tmp"
@@ -141,6 +162,7 @@ def ensure_lib(flavour, repo, jobs=16, log=sys.stderr):
         # the path of src/ is baked into debug info: move tmp -> out by rename
         os.rename(tmp, out)
         print("[build] libTMCG (%s) done in %.0fs" % (flavour, time.time() - t0), file=log)
+        slot.close()
         _prune("lib-%s-" % flavour, 2)
         return out, key
     finally:
@@ -164,7 +186,13 @@ def ensure_harness(name, flavour, repo, extra_src=(), extra_flags=(), no_interpo
     hkey = _sha(srcs + hdrs, extra=lkey + flavour + " ".join(extra_flags) + str(no_interpose))
     out = os.path.join(BUILD_ROOT, "h-%s-%s-%s" % (name, flavour, hkey))
     binp = os.path.join(out, name)
-    lock = open(os.path.join(BUILD_ROOT, "lock-h-%s-%s" % (name, flavour)), "w")
+    if os.path.exists(binp):
+        try:
+            os.utime(out, None)
+        except OSError:
+            pass
+        return binp
+    lock = open(os.path.join(BUILD_ROOT, "lock-h-%s-%s-%s" % (name, flavour, hkey)), "w")
     fcntl.flock(lock, fcntl.LOCK_EX)
     try:
         if os.path.exists(binp):
